@@ -2,8 +2,8 @@
 (***************************************************************************)
 (* Conformance of the real simulator with the mechanism SimMech: the hook   *)
 (* records fired / ev / act / exit of real runs (sim_driver --mech-out; the   *)
-(* amounts of aggregate delays and bottleneck delays are read from the log, *)
-(* what happens to them is modelled) must be explained step by step: every `fired` line is an *)
+(* aggregate delays and the bottleneck's extra delays are computed by the   *)
+(* mechanism - cf.predict - and compared with the logged `agg` / `recv` lines) must be explained step by step: every `fired` line is an *)
 (* enabled timer / action firing at that time, every `ev` line an enabled   *)
 (* blocking expiry or queue pop with exactly those fields, the `act` lines  *)
 (* that follow are taken as the framework oracle's answer, and the lines    *)
@@ -104,7 +104,8 @@ Reset ==
 New ==
   /\ Has(l) /\ Line(l).k = "sim"
   /\ LET ln == Line(l)
-         cf == [delay |-> ln.delay, nc |-> ln.nc, ns |-> ln.ns, cont |-> ln.cont, maxEvents |-> 1000000000]
+         cf == [delay |-> ln.delay, nc |-> ln.nc, ns |-> ln.ns, cont |-> ln.cont, maxEvents |-> 1000000000,
+                predict |-> TRUE, pps |-> IF ln.pps = -1 THEN DefaultPps(ln.trace) ELSE ln.pps]
      IN Z' = ZInit(ln.trace, cf, 1000000000)
   /\ stats' = [stats EXCEPT !.scenarios = @ + 1]
   /\ l' = l + 1 /\ UNCHANGED <<sid, ok>>
